@@ -93,9 +93,23 @@ func signature(name string, i int, msg []byte) ([]byte, bool) {
 	return s, false
 }
 
-func keyAddr(i int) common.Address {
+func keyAddr(i int) common.Address { return keyAddrT(i, 6) }
+
+// tail: the staking part that follows the payment credential for address type t
+func tail(t byte) []byte {
+	switch t >> 1 {
+	case 0, 1: // base addresses: a 28-byte staking credential
+		return make([]byte, 28)
+	case 2: // pointer addresses: three varints
+		return []byte{0x81, 0x02, 0x03, 0x04}
+	}
+	return nil // enterprise
+}
+
+// keyAddrT: the address of Shelley type t (0, 2, 4 or 6: payment part is a key hash) paid to key i
+func keyAddrT(i int, t byte) common.Address {
 	h := common.Blake2b224Hash(pub(i))
-	b := append([]byte{0x61}, h[:]...)
+	b := append(append([]byte{t<<4 | 1}, h[:]...), tail(t)...)
 	a, err := common.NewAddressFromBytes(b)
 	if err != nil {
 		panic(err)
@@ -103,9 +117,26 @@ func keyAddr(i int) common.Address {
 	return a
 }
 
-func scriptAddr() common.Address {
-	b := make([]byte, 29)
-	b[0] = 0x71
+// keyType: a symbolic choice among the address types whose payment part is a key hash
+func keyType(name string) byte {
+	t := sym.U8(name)
+	sym.Assume(t <= 3)
+	switch {
+	case t == 0:
+		return 0
+	case t == 1:
+		return 2
+	case t == 2:
+		return 4
+	}
+	return 6
+}
+
+func scriptAddr() common.Address { return scriptAddrT(7) }
+
+// scriptAddrT: an address of Shelley type t (1, 3, 5 or 7: payment part is a script hash)
+func scriptAddrT(t byte) common.Address {
+	b := append(append([]byte{t<<4 | 1}, make([]byte, 28)...), tail(t)...)
 	a, err := common.NewAddressFromBytes(b)
 	if err != nil {
 		panic(err)
@@ -154,12 +185,12 @@ func Signatures() {
 		switch {
 		case kind == 0:
 			k := pick(name + "_owner")
-			a = keyAddr(k)
+			a = keyAddrT(k, keyType(name+"_addrtype"))
 			if !supplied[k] {
 				ownersOK = false
 			}
 		case kind == 1:
-			a = scriptAddr()
+			a = scriptAddrT(keyType(name+"_addrtype") + 1)
 		default:
 			k := pick(name + "_owner")
 			root, err := common.VerifByronRoot(pub(k), chain, attrs)
@@ -213,11 +244,11 @@ func Collateral() {
 		name := "coll" + string(rune('0'+i))
 		var a common.Address
 		if sym.Bool(name + "_script") {
-			a = scriptAddr()
+			a = scriptAddrT(keyType(name+"_addrtype") + 1)
 			ok = false
 		} else {
 			k := pick(name + "_owner")
-			a = keyAddr(k)
+			a = keyAddrT(k, keyType(name+"_addrtype"))
 			if !supplied[k] {
 				ok = false
 			}
